@@ -196,8 +196,8 @@ def emit_loop(a, shape, label, fill, rng, timeout_label):
             a.db(v)
         else:
             a.db(b)
-    if sig[-1] in (0xCA, 0xC2, 0xF2, 0xFA):
-        a.dw(label)
+    if sig[-1] in (0xCA, 0xC2, 0xF2, 0xFA) and sig[-2] not in (0x20, 0x28):
+        a.dw(label)                           # the signature ends with the opcode of a JP cc back to the loop start
 
 # forward jump targets out of the signature (offset from the loop start -> what must be there)
 FORWARD = {
@@ -247,7 +247,7 @@ def delay_n(kind, tstates):
     per = {'jr': 16, 'jp': 14}.get(kind, 20)
     return max(1, min(255, round(tstates / per)))
 
-def build_edge_loader(shape, org, fill, delay_kind, rng, nblocks=1):
+def build_edge_loader(shape, org, fill, delay_kind, rng, init_ctr=True):
     """Returns (code bytes, labels). Entry LDB: A=flag byte, IX=destination, length pair=length, carry set."""
     lenp, par, byt = _alloc(shape)
     ctr, ear = R8[shape.ctr], R8[shape.ear]
@@ -300,6 +300,10 @@ def build_edge_loader(shape, org, fill, delay_kind, rng, nblocks=1):
     a.label('BREAK')
     a.db(0xC0)                               # RET NZ
     a.label('START')
+    if init_ctr:
+        # the ROM leaves the counter as it is here; a loop that samples BEFORE it counts down (software-projects) would then
+        # be entered with a counter of 0 (= 256 iterations) after every time-out
+        ld_r_n(ctr, K(0x9C))
     a.jp(0xCD, 'EDGE1')
     a.jr(0x30, 'BREAK')
     # short wait (the ROM waits about a second here)
@@ -509,13 +513,13 @@ def build_cycle_loader(pair, org, delay_kind, rng, swap):
 
 # ------------------------------------------------------------------ stub + whole program
 
-def build_program(loader, org, rng, blocks, fill='ret', delay_kind='jr', swap=0, ending='loop'):
+def build_program(loader, org, rng, blocks, fill='ret', delay_kind='jr', swap=0, ending='loop', init_ctr=True):
     """blocks: list of dicts {dest, data(bytes), flag}. Returns dict(code, org, fin, loader_info, labels)."""
     kind, accs = LOADERS[loader]
     stub_len = 3 + len(blocks) * 14 + 8
     lorg = org + stub_len
     if kind == 'edge':
-        lcode, labels, info = build_edge_loader(SHAPE[loader], lorg, fill, delay_kind, rng)
+        lcode, labels, info = build_edge_loader(SHAPE[loader], lorg, fill, delay_kind, rng, init_ctr)
     else:
         lcode, labels, info = build_cycle_loader(loader, lorg, delay_kind, rng, swap)
     rp = PAIRS[info['len_pair']]
